@@ -72,6 +72,7 @@ typedef struct tk {
 	int        cx_total_attempts;
 	int        cx_success, cx_final_fail, cx_fail_reports;
 	int        cx_created;
+	int        ext_in_start;        /* a non-pool thread is inside tp_task_start() for this task right now */
 	int        starting;            /* inside tp_task_start_ex(0,...): a callback now is the direct first I/O, nothing is scheduled yet */
 } tk;
 
@@ -146,6 +147,12 @@ static int stream_cb(tp_task_p tptask, int error, io_buf_p buf, uint32_t eof, si
 	tk *t = udata;
 	int act;
 	if ((uintptr_t)udata < (uintptr_t)&T[0] || (uintptr_t)udata >= (uintptr_t)&T[MAX_TASK]) { sim_violation("io-bad-arg", "task callback with unknown user data"); return TP_TASK_CB_NONE; }
+	if (t->ext_in_start && error == ETIMEDOUT) {
+		/* precondition of known finding KF-C16-1: the timeout (armed first) expired before the starting thread got
+		 * round to registering the I/O event; whatever this callback decides, the starter registers it afterwards */
+		sim_probe("c16.timeout_before_foreign_start_returned");
+		sim_set_context_tag("timeout-before-foreign-start-returned");
+	}
 	if (cb_common_entry(t, "stream")) return TP_TASK_CB_NONE;
 	if (error == ENOBUFS) g_enobufs_cb++;
 	sim_log("task %d cb#%d error=%d eof=%x transfered=%zu off=%zu used=%zu tr=%zu", t->slot, t->ncb, error, eof, transfered_size, buf ? buf->offset : 0, buf ? buf->used : 0, buf ? buf->transfer_size : 0);
@@ -594,7 +601,9 @@ static void op_task(const item_t *it) {
 			 * returning here. Two steps, so that the callbacks know the task object. */
 			sim_probe("c16.started_from_another_thread");
 			rc = tp_task_create(tpt, (uintptr_t)t->fd, tp_task_sr_handler, t->tflags, t, &t->task);
+			t->ext_in_start = 1;
 			if (0 == rc) rc = tp_task_start(t->task, ev, t->evfl, t->timeout_ms, 0, &t->buf, stream_cb);
+			t->ext_in_start = 0;
 		} else
 		if (item_get(it, "sfio", 1)) rc = tp_task_create_start(tpt, (uintptr_t)t->fd, tp_task_sr_handler, t->tflags, ev, t->evfl, t->timeout_ms, 0, &t->buf, stream_cb, t, &t->task);
 		else {
